@@ -29,7 +29,12 @@ PARENTS = ['a + b', 'a - b', 'a * b', 'a ** b', 'a @ b', 'a // b', 'a % b', 'a <
            '(a := b) + c', 'lambda: (yield)', '[(yield a)]', 'await a ** b', '(await a)(b)', 'a[b](c)', 'a.b[c]', 'a ** b ** c', '(a ** b) ** c', 'a - (b - c)', 'a - b - c', 'a or b and c', '(a or b) and c', 'not (a and b)',
            'a if b else c if d else e', 'x = yield a', 'x = await a', 'f(a for a in b)', 'f((a for a in b), c)', 'async def g():\n    return [await a async for b in c]', 'match a:\n    case b: pass', 'match a, b:\n    case _: pass',
            'match a:\n    case b if c: pass', 'type X = a', 'def f[T: a](): pass', 'x = a[b] = c', 'a[b] += c', 'a.b = c', 'for a.b in c: pass', 'with a as b.c: pass', 'del a.b, c[d]', 'global_ = a,', 'x = *a, *b', 'print(*a, **b)',
-           'try: pass\nexcept a: pass', 'try: pass\nexcept (a, b) as c: pass', 'a = b = c', 'assert a', 'raise a', 'a; b', 'x = (a)', 'x = ((a)) + b', 'x = (\n    a\n    + b\n)', 'x = a + (  # c\n    b)', 'é = ü + "日本"']
+           'try: pass\nexcept a: pass', 'try: pass\nexcept (a, b) as c: pass', 'a = b = c', 'assert a', 'raise a', 'a; b', 'x = (a)', 'x = ((a)) + b', 'x = (\n    a\n    + b\n)', 'x = a + (  # c\n    b)', 'é = ü + "日本"',
+           # async twins and remaining statement-level / clause-level slots
+           'async with a: pass', 'async with a as b: pass', 'async with a, b: pass', 'async for a in b: pass', 'async def g(x=a) -> b: pass', '[a async for b in c if d]', 'with (a, b): pass', 'with (a as b, c): pass',
+           'try: pass\nexcept* a: pass', 'while a: pass\nelse: pass', 'if a: pass\nelif b: pass', 'for a, b in c: pass', 'x: a', 'class C[T: a](b): pass', 'type X[T: a] = b', '@a(b)\nclass D: pass',
+           'lambda x, *, y=a: b', 'a[b:c, d]', 'a[*b]', '{a: b, **c}', 'f(a)(b)', 'a.b(c).d', 'print(a, sep=b)', 'x = [a] * b', 'return a, b', 'x = not a', 'x = -a', 'a <<= b', 'a **= b', 'assert (a, b)',
+           'match a:\n    case 1 if b: pass', 'f"{a!r}" f"{b:>{c}}"', 'x = a if b else c, d', 'del (a), [b]', 'raise a(b) from c.d', 'x = yield from a', 'x = [*a, *b]', 'with a as (b, c): pass']
 CHILDREN = ['x', '1', '-1', 'x + y', 'x * y', 'x ** y', '-x', 'not x', 'x and y', 'x or y', 'x < y', 'x if y else z', 'lambda: x', 'lambda: (x, y)', 'x.y', 'x[y]', 'x(y)', '[x, y]', '(x, y)', 'x, y', '{x: y}', 'x := y',
             'yield x', 'yield', 'yield from x', 'await x', '*x', 'f"{x}"', '"s" "t"', 'x < y < z', 'x if y else (z if w else v)', '(x)', '((x + y))', 'x\n+\ny', 'x is y', 'x in y', '1.5', '1j', '...', 'x, ',
             'x for x in y', '"s"\n"t"', 'x  # c\n+ y', '(x\n, y)', 'x | y', 'x >> y', 'not x in y', '-x ** y', 'x.y(z)[w]', '{x}', '[x for x in y]', 'é + "ü"', 'lambda x, *y: (yield)', '(yield x)', '(x := y)', 'x,\ny', '1 .real', '1.0.real',
@@ -237,6 +242,15 @@ def classify(psrc, path, csrc, cnode, ep, form, tgt, what, valid):
         return 'yield-fst-into-arglikes-unparenthesized'
     if isinstance(cnode, ast.Lambda) and slot == 'values' and ep in SLICE_OPS:
         return 'lambda-into-boolop-values-slice-path-unparenthesized'
+    if not valid and any(isinstance(x, ast.Starred) for x in ast.walk(cnode)):
+        node = ast.parse(psrc)
+        for f, i in path[:-1]:
+            if isinstance(node, ast.Delete):
+                return 'starred-accepted-into:Delete.targets'   # same mechanism as the C01 finding: a Starred anywhere inside a del target
+            node = getattr(node, f)
+            node = node if i is None else node[i]
+        if isinstance(node, ast.Delete):
+            return 'starred-accepted-into:Delete.targets'
     if isinstance(cnode, ast.Starred) and not valid:
         return f'starred-accepted-into:{type(getp_parent(psrc, path)).__name__}.{slot}'
     if slot in ('target', 'name') and isinstance(getp_parent(psrc, path), (ast.NamedExpr, ast.AnnAssign, ast.TypeAlias)) and isinstance(csrc, str) and csrc.lstrip().startswith('('):
